@@ -47,8 +47,12 @@ PipelineOK(r) ==
 
 Flat(ds) == IF ds = <<>> THEN <<>> ELSE FoldLeft(LAMBDA acc, d : acc \o d, <<>>, ds)
 
+\* an argument that is not a byte string at all (a memoryview of 16-bit items over twice the bytes): the property
+\* speaks about byte strings, so refusing it by raising is tolerated - accepting it is not
+OutOfDomainType(s0) == s0.sig.cls = "wide_view" \/ \E k \in 1..Len(s0.pks) : s0.pks[k].cls = "wide_view"
+
 RowOK(r) ==
-  CASE r.op = "run" -> /\ r.raised = 0                                      \* total: never raises
+  CASE r.op = "run" -> /\ (r.raised = 0 \/ OutOfDomainType(r.sc))           \* total: never raises (on byte strings)
                        /\ r.got = B2N(Predict(r.sc))
                        /\ r.again = r.got                                  \* ... however often the input is presented
                        /\ \A k \in 1..Len(r.pair) : PairSafe(r.pair[k])      \* no pairing on unsafe points
